@@ -53,10 +53,18 @@ pub type ParseResult<T> = Result<T, ParseError>;
 // R6: String::len / push / extend(utf8_percent_encode(..)) on the serialization buffer (its content is not part of this contract)
 #[verifier::external_body]
 fn vf_len(s: &String) -> (r: usize) { s.len() }
+pub open spec fn is_prefix(p: Seq<char>, t: Seq<char>) -> bool { p.len() <= t.len() && t.take(p.len() as int) =~= p }
 #[verifier::external_body]
-fn vf_push(s: &mut String, c: char) { s.push(c) }
+fn vf_push(s: &mut String, c: char) ensures final(s)@ == old(s)@.push(c) { s.push(c) }
+// T: String::extend(percent-encoded pieces) appends
 #[verifier::external_body]
-fn vf_extend_percent(s: &mut String, utf8_c: &str) { unimplemented!() }
+fn vf_extend_percent(s: &mut String, utf8_c: &str) ensures is_prefix(old(s)@, final(s)@) { unimplemented!() }
+proof fn lemma_prefix_trans(a: Seq<char>, b: Seq<char>, c: Seq<char>)
+    requires is_prefix(a, b), is_prefix(b, c)
+    ensures is_prefix(a, c)
+{
+    assert(c.take(a.len() as int) =~= c.take(b.len() as int).take(a.len() as int));
+}
 
 // ---- the statement -------------------------------------------------------------------------------------------------------
 // the authority ends at the first of these
@@ -90,9 +98,13 @@ impl Parser {
                 && ((forall|j: int| 0 <= j < n ==> #[trigger] input.v@[j] != '@') ==> r->Ok_0.1.v@ == input.v@)
                 // otherwise the host starts right after the LAST '@' of the authority
                 && (forall|k: int| #[trigger] last_at(input.v@, n, k) ==> r->Ok_0.1.v@ == input.v@.subrange(k + 1, input.v@.len() as int)), // OBL C12.userinfo.host_after_last_at
+            // the normalised URL only grows: what was written before (scheme, "//") stays where it is (unit c12_offsets relies on it)
+            r is Ok ==> is_prefix(old(self).serialization@, final(self).serialization@), // OBL C12.userinfo.only_appends
 //@ ENDSPEC
 //@ FNSTART
         let ghost a = input.v@;
+        let ghost s0 = self.serialization@;
+        proof { assert(s0.take(s0.len() as int) =~= s0); }
 //@ ENDFNSTART
 //@ LOOP 1
             invariant_except_break
@@ -105,7 +117,7 @@ impl Parser {
                 0 <= char_count <= a.len(), authority_end(a, special(scheme_type), char_count as int), at_state(a, char_count as int, last_at), input.v@ == a,
 //@ ENDLOOP
 //@ LOOP 2
-            invariant userinfo_char_count >= 0,
+            invariant userinfo_char_count >= 0, is_prefix(s0, self.serialization@), // OBL C12.userinfo.only_appends
 //@ ENDLOOP
 //@ SUBST R6*
     self.serialization.len()
